@@ -7,6 +7,18 @@ from analysis.core import *
 from analysis.engines import dlint, hirq, mustcall as mc
 from analysis.props import dprops
 
+# the function index of the reference tree comes first: functions that are not in it are treated as NEW helpers and expanded at their call sites
+import analysis.core as _core
+_ids = set()
+for _cfg in ('default', 'truncated', 'devcurves'):
+    _wc = World(_cfg)
+    for _c in _wc.crates():
+        for _f in facts.load(_wc.dir, _c, 'hir')['fns']:
+            _ids.add(norm(_f['id']))
+json.dump(sorted(_ids), open(os.path.join(facts.VERIF, 'rules', 'fn_index.json'), 'w'))
+_core._REF_FNS = None
+print('reference functions', len(_ids))
+
 w = World()
 out_d4 = dprops.enumerate_d4(w)
 json.dump({k: sorted(v) for k, v in sorted(out_d4.items())}, open(os.path.join(facts.VERIF, 'rules', 'd4_sites.json'), 'w'), indent=1)
